@@ -22,7 +22,10 @@ proof fn lemma_fill(n0: u64, a: u64, b: u64, c: u64, d: u64, e: u64)
         a == n0 | (n0 >> 1), b == a | (a >> 2), c == b | (b >> 4), d == c | (c >> 8), e == d | (d >> 16),
     ensures
         e < 0x1_0000_0000u64, e >= n0, is_pow2(add(e, 1)), e / 2 <= n0,
+        n0 >= 1 ==> add(e, 1) / 2 <= n0,
 {
+    assert(n0 < 0x1_0000_0000u64 && a == n0 | (n0 >> 1) && b == a | (a >> 2) && c == b | (b >> 4) && d == c | (c >> 8) && e == d | (d >> 16) && n0 >= 1
+        ==> add(e, 1) / 2 <= n0) by(bit_vector);
     assert(n0 < 0x1_0000_0000u64 && a == n0 | (n0 >> 1) && b == a | (a >> 2) && c == b | (b >> 4) && d == c | (c >> 8) && e == d | (d >> 16)
         ==> e < 0x1_0000_0000u64 && e >= n0 && add(e, 1) != 0 && (add(e, 1) & sub(add(e, 1), 1)) == 0 && e / 2 <= n0) by(bit_vector);
 }
@@ -79,7 +82,7 @@ ITEMS = [
     ensures
         ctrs < 1 ==> r is Err,                                   // [C05] zero width is rejected
         ctrs >= 1 ==> (r is Ok && r->Ok_0.shape_ok() && r->Ok_0.is_zero() && r->Ok_0.mask_of() + 1 >= ctrs),   // [C05][C11] every accepted width gives rows that can be indexed''',
-         stmts={'B0/3~let this': 'proof { lemma_pow2_even(ctrs); }'},
+         stmts={'B0/3~let this': 'proof { assert(is_pow2(2u64)) by(bit_vector); lemma_pow2_even(ctrs); }'},
          props=['C05', 'C11']),
 ]
 
